@@ -480,6 +480,11 @@ func checkC06(c *Ctx, r *Report, tier string) {
 	r.Rule("C06.R11", "cache lookups agree with the reference: FirstIndex consults the cached snapshot before the memoized first index (or every snapshot store refreshes the memo); the previous last index is read before the cache is overwritten", 2)
 	walCacheOrdering(c, r, "C06.R11")
 	persistConsumesAllParts(c, r, "C06.R4")
+	r.Rule("C06.R12", "the constructor re-initialises a group only on `not found`; what is cached under the snapshot key is the persisted snapshot itself; a received snapshot wipes the whole log; snapshot and compaction share one batch", 5)
+	constructorResetsOnlyOnAbsence(c, r, "C06.R12")
+	cachedSnapshotIsTheWrittenOne(c, r, "C06.R12")
+	persistOrder(c, r, "C06.R12")
+	snapshotAndCompactionAtomic(c, r, "C06.R12")
 }
 
 // familyPrefix: what the constructor copies to offset 0 of its buffer.
